@@ -367,7 +367,15 @@ impl Context {
                 Phase::Drop => unreachable!(),
             }
 
-            if run_until == RunUntil::PayDebt && !(cx.metrics.allocation_debt() > 0.0) {
+            // Once the sweep cursor is exhausted only the roll-over to the next cycle is left, and
+            // that is free: do not yield one step short of it. Freeing the arena's last allocation
+            // zeroes the debt, and a stop-the-world call would otherwise return while still in
+            // `Phase::Sweep` and skip the sleep it has earned.
+            let roll_over_pending = cx.phase == Phase::Sweep && cx.sweep.is_none();
+            if run_until == RunUntil::PayDebt
+                && !roll_over_pending
+                && !(cx.metrics.allocation_debt() > 0.0)
+            {
                 break;
             }
         }
